@@ -12,6 +12,7 @@
   that nothing reports to the pruning) — `C09_full_false`, `C09_partial`.
 -/
 import AriadneModel.Proofs.Prune
+import AriadneModel.Proofs.PruneOrder
 import Mathlib.Logic.Relation
 
 set_option linter.unusedSimpArgs false
@@ -101,38 +102,7 @@ theorem dfs_is_closure (tbl : List InputDef) (roots l : List Name) (n : Name)
   · rintro ⟨r, hr, hreach⟩; exact ⟨r, hr, (reach_iff _ _ _).mp hreach⟩
   · rintro ⟨r, hr, hreach⟩; exact ⟨r, hr, (reach_iff _ _ _).mpr hreach⟩
 
-/-! ### Closed form of `generate` -/
-
-theorem foldl_addOperation (ops : List Op) (st : St) :
-    ops.foldl addOperation st =
-      { st with usedEnums := st.usedEnums ++ ops.flatMap (·.resultEnums),
-                argInputs := st.argInputs ++ ops.flatMap (·.varInputs),
-                argEnums := st.argEnums ++ ops.flatMap (·.varEnums) } := by
-  induction ops generalizing st with
-  | nil => simp
-  | cons o ops ih => simp [List.foldl_cons, ih, addOperation, List.append_assoc]
-
-theorem initState_eq (x : Input) :
-    initState x = { usedEnums := resultEnumsOf x, argInputs := varInputsOf x, argEnums := varEnumsOf x } := by
-  simp [initState, foldl_addOperation, resultEnumsOf, varInputsOf, varEnumsOf]
-
-theorem generate_eq (x : Input) :
-    generate x =
-      (filterInputDefs x.inputs (if x.allInputs then none else some (varInputsOf x))).map fun cds =>
-        { inputsModule := cds,
-          enumsModule := filterEnumDefs x.enums (if x.allEnums then none else some (usedEnumsFinal x cds)),
-          inputsEnumImport := inputsUsedEnums x.inputs (names cds),
-          clientInputs := varInputsOf x,
-          clientEnums := varEnumsOf x } := by
-  unfold generate generateWith generateOrder runSteps
-  rw [initState_eq]
-  simp only [List.foldlM_cons, List.foldlM_nil, step]
-  cases hf : filterInputDefs x.inputs (if x.allInputs then none else some (varInputsOf x)) with
-  | none => simp [hf]
-  | some cds =>
-    cases hfr : x.fragEnums with
-    | none => simp [hf, hfr, finish, usedEnumsFinal, fragEnumsOf, names]
-    | some es => simp [hf, hfr, finish, usedEnumsFinal, fragEnumsOf, List.append_assoc, names]
+/-! ### Closed form of `generate` (`generate_eq`, `initState_eq`: Proofs/Prune.lean) -/
 
 /-- The retained input classes are either all of them or the name-filter by the closure. -/
 def InputsShape (x : Input) (cds : List InputDef) : Prop :=
@@ -337,14 +307,6 @@ theorem wellScoped_unpruned_resolvable (x : Input) (outAll : Output)
   · intro e h1; have := hw.clientEnums e (hw.clientEnumsCover e h1); rwa [hen] at this
   · intro e h1; have := hw.resultEnums e h1; rwa [hen] at this
   · intro e h1; have := hw.fragEnums e h1; rwa [hen] at this
-
-theorem mem_names_filter (l : List InputDef) (p : InputDef → Bool) (n : Name) :
-    n ∈ names (l.filter p) ↔ ∃ c ∈ l, p c = true ∧ c.name = n := by
-  simp [names, List.mem_map, List.mem_filter, and_assoc]
-
-theorem mem_enames_filter (l : List EnumDef) (p : EnumDef → Bool) (n : Name) :
-    n ∈ enames (l.filter p) ↔ ∃ c ∈ l, p c = true ∧ c.name = n := by
-  simp [enames, List.mem_map, List.mem_filter, and_assoc]
 
 /-- every needed, resolvable enum name is defined in the written enums module -/
 theorem needed_enum_defined (x : Input) (out : Output) (h : generate x = some out) (e : Name)
@@ -606,6 +568,57 @@ theorem order_matters_inputs :
       (∃ c ∈ out.inputsModule, "E" ∈ enumRefs c) ∧ "E" ∉ enames out.enumsModule := by
   refine ⟨⟨[⟨"I", [.enum "E"], ""⟩], [], ["E"], ["I"], []⟩, by decide, ⟨⟨"I", [.enum "E"], ""⟩, by decide, by decide⟩, by decide⟩
 
+/-- Any order of `generate` in which input_types.py, fragments.py and client.py are produced (in any
+    order, even repeatedly) before enums.py is written last gives the same two pruned modules and the
+    same imports as the real order: the only order constraint is "enums last". -/
+theorem order_sufficient (x : Input) (pre : List Step) (out : Output)
+    (hne : Step.enums ∉ pre) (hi : Step.inputs ∈ pre) (hf : Step.fragments ∈ pre) (hc : Step.client ∈ pre)
+    (h : generateWith (pre ++ [Step.enums]) x = some out) : generate x = some out := by
+  unfold generateWith runSteps at h
+  rw [List.foldlM_append] at h
+  cases hp : List.foldlM (step x) (initState x) pre with
+  | none => simp [hp] at h
+  | some st' =>
+    have e := preEffect x pre (initState x) st' hne hp
+    rw [initState_eq] at e
+    obtain ⟨cds, hcds, hshape⟩ := filterInputDefs_shape x
+    have hcd : cdsOf x { usedEnums := resultEnumsOf x, argInputs := varInputsOf x, argEnums := varEnumsOf x } = some cds := by
+      simp [cdsOf, hcds]
+    obtain ⟨i1, i2⟩ := e.inputsDone hi
+    obtain ⟨c1, c2⟩ := e.clientDone hc
+    rw [hcd] at i1
+    simp only [contrib, hcd] at i2
+    simp only [hp, List.foldlM_cons, List.foldlM_nil, step] at h
+    simp [finish, i1, e.enumsModule] at h
+    rw [generate_eq, hcds]
+    simp only [Option.map_some, Option.some.injEq]
+    rw [← h]
+    simp only [i2, c1, c2, Output.mk.injEq, true_and, and_true]
+    cases hae : x.allEnums with
+    | true => simp
+    | false =>
+      simp only [Bool.false_eq_true, ↓reduceIte, filterEnumDefs]
+      apply List.filter_congr
+      intro c _
+      have : c.name ∈ usedEnumsFinal x cds ↔ c.name ∈ st'.usedEnums := by
+        rw [e.usedEnums]
+        simp only [usedEnumsFinal, List.mem_append, List.mem_flatMap]
+        constructor
+        · rintro (((h1 | h2) | h3) | h4)
+          · exact .inl h1
+          · exact .inr ⟨.inputs, hi, by simpa [contrib, hcd] using h2⟩
+          · exact .inr ⟨.fragments, hf, by simpa [contrib] using h3⟩
+          · exact .inr ⟨.client, hc, by simpa [contrib] using h4⟩
+        · rintro (h1 | ⟨s, hs, hm⟩)
+          · exact .inl (.inl (.inl h1))
+          · cases s with
+            | inputs => exact .inl (.inl (.inr (by simpa [contrib, hcd] using hm)))
+            | results => simp [contrib] at hm
+            | fragments => exact .inl (.inr (by simpa [contrib] using hm))
+            | client => exact .inr (by simpa [contrib] using hm)
+            | enums => simp [contrib] at hm
+      simp [this]
+
 /-! ### Non-vacuity -/
 
 /-- A cycle A → B → A with a self-loop on S, an unused input U holding the only use of enum X,
@@ -631,5 +644,8 @@ example : (generate { exInput with allInputs := true }).map (fun o => enames o.e
 example : Supported_09 exInput := by decide
 
 example : getDependenciesOfType exInput.inputs "A" = some ["A", "B"] := by decide
+
+/-- `order_sufficient` is not vacuous: a permuted order with enums last, on the example. -/
+example : generateWith ([.client, .fragments, .inputs, .results] ++ [.enums]) exInput = generate exInput := by decide
 
 end Ariadne.C09
